@@ -5,6 +5,8 @@ func init() {
 		ID:    "C12",
 		Title: "Go data passed to a render is visible in the template with the same structure",
 		Rules: []string{
+			"R-KWTABLE: the keyword table holds exactly true, false, nil and in (any other word there is a data key that cannot be named)",
+			"R-FORMAT: no rendered text is used as a printf format (strings print their exact bytes)",
 			"R-DOTKW: the parse function registered for the dot, by cases on the abstract parser: an identifier and every keyword token is a name after the dot; a non-name is an error",
 			"R-KINDS (supported kinds): the conversion's dispatch on reflect.Kind has a case for each of the 18 supported kinds (named types do not match the type switch)",
 			"R-USERCODE: the data conversion calls no method of a data value: structs, maps and pointers are visible by their fields and keys whatever methods they have",
@@ -21,6 +23,8 @@ func init() {
 		NotDecided:  "TODO",
 		Assumptions: trustedBase,
 		Run: func(m *Model, s *Sink) {
+			m.RunKeywordTable(s, "R-KWTABLE")                                // no data key is shadowed by a keyword other than true, false, nil, in
+			m.RunFormat(s, "R-FORMAT", m.reachableFns(m.Roots().Render))     // a percent sign in a data string is not a verb
 			m.RunDotKeywords(s, "R-DOTKW")                                   // a field or key spelled like a keyword is reachable with dot syntax
 			m.RunSupportedKinds(s, "R-KINDS")                                // a value of a named type is converted by its kind
 			m.RunNoUserMethods(s, "R-USERCODE")                              // structs, maps and pointers are converted by their structure whatever methods they have
